@@ -13,7 +13,7 @@ assert r.returncode == 0, 'patch does not apply'
 try:
     for p in props:
         t0 = time.time()
-        r = subprocess.run(['./check', p], cwd='/verif', capture_output=True, text=True)
+        r = subprocess.run(['./check', p], cwd='/verif', capture_output=True, text=True, env=dict(os.environ, VERIF_NO_EVIDENCE='1'))
         lines = [l for l in r.stdout.split('\n') if l.startswith(('VIOLATION', 'UNDECIDED', 'KNOWN')) or 'failed obligation' in l]
         meta.setdefault('check_results', {})[p] = {'exit': r.returncode, 'caught': r.returncode == 1, 'seconds': round(time.time() - t0, 1),
                                                   'lines': [l[:400] for l in lines[:12]]}
